@@ -934,3 +934,130 @@ func DefJSON(d Def) string {
 
 // keep proto imported (Request marshals through it in gen.go)
 var _ = proto.Marshal
+
+// usesType reports whether a method of the definition refers to the type.
+func usesType(d *Def, ref string) bool {
+	for _, s := range d.File.Services {
+		for _, m := range s.Methods {
+			if m.In == ref || m.Out == ref {
+				return true
+			}
+			if m.CustomReturn != "" && !strings.HasPrefix(ref, ".") && m.CustomReturn == GoCamelCase(ref) && (!strings.HasPrefix(m.Out, ".") || m.Out == EmptyType) {
+				return true
+			}
+		}
+	}
+	return false
+}
+
+// prune drops what no method refers to: messages (except those that carry a
+// feature with the given key), the imported user file, the Empty import.
+func prune(d Def, featureKey string) Def {
+	v := cloneDef(d)
+	a := Analyze(v)
+	keepMsg := map[int]bool{}
+	for _, ft := range a.Features {
+		if ft.Key == featureKey && ft.msg >= 0 {
+			keepMsg[ft.msg] = true
+		}
+	}
+	var msgs []Message
+	for i, m := range v.File.Messages {
+		if keepMsg[i] || usesType(&v, m.Name) {
+			msgs = append(msgs, m)
+		}
+	}
+	if len(msgs) == 0 && len(v.File.Messages) > 0 {
+		msgs = v.File.Messages[:1]
+	}
+	v.File.Messages = msgs
+	usedDep, usedEmpty := false, false
+	for _, s := range v.File.Services {
+		for _, m := range s.Methods {
+			for _, r := range []string{m.In, m.Out} {
+				if r == EmptyType {
+					usedEmpty = true
+				} else if strings.HasPrefix(r, ".") {
+					usedDep = true
+				}
+			}
+		}
+	}
+	var imports []string
+	for _, im := range v.File.Imports {
+		if (im == EmptyImport && usedEmpty) || (v.Dep != nil && im == v.Dep.Name && usedDep) {
+			imports = append(imports, im)
+		}
+	}
+	v.File.Imports = imports
+	if !usedDep {
+		v.Dep = nil
+	} else if v.Dep != nil {
+		var dm []Message
+		for _, m := range v.Dep.Messages {
+			if usesType(&v, "."+v.Dep.Package+"."+m.Name) {
+				dm = append(dm, m)
+			}
+		}
+		// a custom return type may name a dep message by its Go name
+		if len(dm) != len(v.Dep.Messages) {
+			for _, s := range v.File.Services {
+				for _, me := range s.Methods {
+					if me.CustomReturn != "" {
+						dm = v.Dep.Messages
+					}
+				}
+			}
+		}
+		v.Dep.Messages = dm
+	}
+	return v
+}
+
+// Minimise reduces a failing definition while it keeps failing with the same
+// kind of problem and keeps the feature (or row) the failure was attributed
+// to: first to a single method, then to the messages that method needs. Two
+// extra batch evaluations; the result is for reporting only.
+func Minimise(tl Tools, d Def, kind, featureKey string, runs int) Def {
+	still := func(v Def) bool {
+		a := Analyze(v)
+		if a.Invalid != "" {
+			return false
+		}
+		if len(Analyze(d).Features) == 0 {
+			return true
+		}
+		for _, k := range a.FeatureKeys() {
+			if k == featureKey {
+				return true
+			}
+		}
+		return false
+	}
+	best := d
+	var cands []Def
+	for si, s := range d.File.Services {
+		for mi := range s.Methods {
+			if v := OnlyMethod(d, si, mi); still(v) {
+				cands = append(cands, prune(v, featureKey), v)
+			}
+		}
+	}
+	if p := prune(d, featureKey); still(p) {
+		cands = append(cands, p)
+	}
+	if len(cands) == 0 {
+		return best
+	}
+	outs, err := EvalBatch(tl, cands, runs)
+	if err != nil {
+		return best
+	}
+	size := func(v Def) int { return len(DefJSON(v)) }
+	for i, o := range outs {
+		if o.Invalid == "" && Judge(o).Kind == kind && size(cands[i]) < size(best) {
+			best = cands[i]
+		}
+	}
+	return best
+}
